@@ -38,7 +38,33 @@ def layout_classes(text, ref):
     return ','.join(sorted(out)) or 'plain'
 
 
+def features(ref):
+    """ASI-relevant constructs present in the text (from the reference's
+    token list): they name the known root causes a divergence can stem from,
+    so that the same symptom without them gets a different signature"""
+    toks = list(getattr(ref, 'tokens', ()))
+    t2 = getattr(ref, 'tok', None)
+    if t2 is not None:
+        toks.append(t2)
+    f = set()
+    for a, b in zip(toks, toks[1:]):
+        if b.type == 'punct' and b.value in ('++', '--') and b.nl_before \
+                and judge.tclass(a) in judge.OPERAND_END:
+            f.add('lt-before-incdec')
+        if a.type == 'id' and a.value in judge.RESTRICTED_KW and \
+                b.nl_before and b.type == 'punct' and b.value == ';':
+            f.add('restricted-keyword-lt-semicolon')
+    return ','.join(sorted(f)) or '-'
+
+
 def judge_asi(text, out, ref):
+    v = judge_asi0(text, out, ref)
+    if v is None:
+        return None
+    return (v[0] + '|features=' + features(ref), v[1])
+
+
+def judge_asi0(text, out, ref):
     """None or (sig, detail)"""
     if ref.verdict == 'abstain' or out.kind == 'crash':
         return None
